@@ -27,7 +27,18 @@ Preconditions (all explicit, `Chewing.Model.ConversionSpec`):
   ("a dictionary that has at least one word per syllable").  Without it the Chewing engine panics (F02,
   `no_word_chewing_panics`) and the simple engine shows the Bopomofo spelling (F30, `no_word_simple_spelling`).
 
-Section "obligations of C04 discharged here": `selection_shown`, `break_not_spanned`.
+Theorems (all for every engine, every alternative, every pick oracle, every dictionary):
+`tiles`, `one_char_per_symbol`, `char_symbols_verbatim` (+ `char_symbols_displayed`), `display_is_concat`,
+`provenance` (+ `provenance_simple` without `HasWord`); section "obligations of C04 discharged here":
+`selection_shown`, `break_not_spanned`; liveness: `shortest_path_terminates`, `fuel_suffices`,
+`find_intervals_valid`, `shortest_path_complete`, `no_path_panic`, `nonempty_result`; the full statement
+`C03_full`, `C03_full_refuted` (F31 witness), `C03_partial`; witnesses for every excluded class
+(`invalid_selection_panics`, `invalid_selection_not_shown`, `no_word_chewing_panics` F02,
+`no_word_simple_spelling` F30, `empty_key_panics` F39) and non-vacuity examples.
+
+Not covered by a theorem here: that editor histories only reach `CompValid` compositions (C04's
+`CompInv`/`TextInv`/`SylInv`, to be bridged), and that the concrete dictionaries satisfy
+`NoEmptyKey`/`WellFormed` (facts about data: C09/C11/C20).
 -/
 namespace Chewing.C03
 open Chewing Chewing.Conv
